@@ -7,6 +7,8 @@ claimed = {
  "C01": ("sched-dfs", SCHED, "all schedules up to the stated preemption/delay bound, all cross-connection arrival orders and connection choices of a closed Session-pair driver (1-3 connections, 1-3 streams, 1-3 frames, both directions, late connection adder, 4 methods) running the real multiplexer; oracle: per-stream byte FIFO, no error and no teardown on a healthy session, no deadlock", "small configurations; TLSConn/WebSocketConn are replaced by message connections (their contract is C05); bounds per job in the evidence"),
  "C02": ("enum+bfs+sched-dfs", ENUM + "; plus unbounded schedule exploration of reader vs deliverer", "all n! arrival orders x all 2^n drain patterns x 3 base sequence numbers on the real streamBuffer (n<=6 quick, n<=8 thorough), explicit-state BFS over arrived-sets with a differential oracle, and all schedules of a blocking reader against a deliverer", "frames delivered exactly once; sequence numbers near 2^64 but not wrapping"),
  "C03": ("sched-dfs", SCHED, "all schedules/arrival orders (to the stated bound) of write-then-close on a Session pair: data and closing frame on any connection, 0..3 frames, either side, simultaneous close, local close with buffered bytes, singleplex", "the server's accept loop is already waiting when traffic starts (as serveSession is); small configurations"),
+ "C04": ("enum", ENUM, "every payload length 1..16132 x 4 methods (one slice per method in quick, the full product of sequence numbers around the padding threshold x closing flags x padding extremes x 3 keys x both buffer placements in thorough), all padding lengths on the extreme lengths; oracle: independent reference codec decodes the implementation's bytes, re-encodes them identically, and the implementation decodes the reference's messages; size limit; in-place == separate", "the Go crypto primitives (AES-GCM, ChaCha20-Poly1305, Salsa20) are shared with the reference and trusted; stream ids/keys from a small fixed set"),
+ "C11": ("enum", ENUM, "every single-bit flip at every position, every truncation and extensions by 1..16 bytes of encoder output at 5 sizes x 3 AEAD methods; 8x8 matrix of (sealed under method/key A, opened under B); Session.recvDataFromRemote on every length 0..20480 x 3 fills x 4 methods with a valid frame interleaved", "bit flips are single; multi-byte corruptions only through the length sweep"),
  "C12": ("sched-dfs", SCHED + "; faults (reset, in-record EOF, Session.Close) are threads whose position is enumerated by the scheduler; timers on a virtual clock", "fault position x schedule exploration on a Session pair: reset / in-record EOF classes / Close by either side during open-transfer-close; Session.Close racing OpenStream/Read/Write/Stream.Close; stream counter at quiescence; inactivity timer racing stream opening on a virtual clock", "one fault per execution; fault position within the deviation bound; TLSConn over a vnet byte stream for in-record faults"),
  "C14": ("sched-dfs+enum", SCHED + "; plus exhaustive enumeration of datagram sizes", "all schedules (to the bound) of concurrent datagram senders on 1-2 unordered streams over 1-3 connections with reader buffers around the datagram size; the datagram pipe alone with 2 writers and 1 reader, unbounded; every datagram size 1..max+2 for every method", "no close/fault during the exchange (exactly-once clause); RouteUDP's socket loop is not explored"),
  "C15": ("sched-dfs", SCHED + "; invariant evaluated at every decision point", "N simultaneous real handshakes (client Transport.Handshake against server dispatchConnection, in-memory and bbolt user stores) for sets of (user, session id) pairs with caps 0..2 and a concurrent closure of a non-last session; oracle: same pair => same key and one session, different pairs => different keys, live sessions <= cap at every decision point, admissions = min(cap, distinct ids)", "2-3 connections, 1-2 users; handshake cryptography runs atomically between scheduling points; credit/expiry histories are covered by C16/C18 drivers"),
